@@ -443,7 +443,7 @@ func TestVerifC13_bls_pairing(t *testing.T) {
 	r.Rule("e0 = Pair(G1, G2) lifted coefficient-wise into the reference GF(p^12) tower: e0 != 1 and e0^r = 1; Pair([a]G1, [b]G2) = e0^(ab) for all (a, b) in E x E, " +
 		"E = {0, 1, 2, 3, r-1, r-2, (r+1)/2, 2 SHAKE values} with the points decoded from the reference's encodings (never produced by the library's own multiplication) and the power computed by the reference tower; " +
 		"any pair containing the identity maps to one; ProdPair over all lists of length 1..2 of (a, b, n) in {0,1,2,r-1} x {0,1,2} x {r-2,r-1,0,1,2} (thorough: also length 3 over {0,1,r-1} x {0,1} x {r-1,0,1,2}), " +
-		"ProdPairFrac over all lists of length 1..3 of (a, b, sign) in {0,1,2,r-1} x {0,1,2} x {+1,-1} equal e0^(sum); Gt.Exp/Mul/Inv agree with the tower on the same values; the Gt predicates (IsIdentity, IsEqual against SetIdentity, a computed identity e0*e0^-1, the same value by Gt.Exp, a different value) are queried on every fresh pairing result; distinct = distinct exponent/sign vectors")
+		"ProdPairFrac over all lists of length 1..3 of (a, b, sign) in {0,1,2,r-1} x {0,1,2} x {+1,-1} equal e0^(sum); all ProdPair / ProdPairFrac lists of length 1..2 (thorough: ProdPairFrac also 3) again with every operand in projective, non-normalised representation ([a-3]G+[3]G, z != 1, the identity with z = 0), so that the batch normalisation inside the product is exercised with identities at every list position; Gt.Exp/Mul/Inv agree with the tower on the same values; the Gt predicates (IsIdentity, IsEqual against SetIdentity, a computed identity e0*e0^-1, the same value by Gt.Exp, a different value) are queried on every fresh pairing result; distinct = distinct exponent/sign vectors")
 	g1, g2 := wcurve.BLS12381G1(), wcurve.BLS12381G2()
 	R := wcurve.BLS12381R()
 	pc := &c13Pair{tw: fpx.NewTower12(wcurve.BLS12381P()), r: R, memo: map[string]fpx.E12{}}
@@ -629,6 +629,27 @@ func TestVerifC13_bls_pairing(t *testing.T) {
 	for _, b := range Bs {
 		Q2[b] = mk2(small(b))
 	}
+	// the same operands in projective (non-normalised, z != 1; z = 0 for the identity) representation:
+	// batch normalisation inside ProdPair / ProdPairFrac only does real work on these
+	P1p := map[int64]*bls.G1{}
+	Q2p := map[int64]*bls.G2{}
+	for _, a := range As {
+		P := mk1(small(a - 3)) // [a-3]G + [3]G: both summands are non-trivial for every a in As
+		P.Add(P, mk1(small(3)))
+		if !P.IsEqual(P1[a]) {
+			t.Fatalf("projective operand [%d]G1 differs from the decoded one", a)
+		}
+		P1p[a] = P
+	}
+	for _, b := range Bs {
+		Q := mk2(small(b - 3))
+		Q.Add(Q, mk2(small(3)))
+		if !Q.IsEqual(Q2[b]) {
+			t.Fatalf("projective operand [%d]G2 differs from the decoded one", b)
+		}
+		Q2p[b] = Q
+	}
+	proj := false
 	var runListsL func(op string, tt []term, L int, thin int)
 	runLists := func(op string, tt []term, maxLen int, thin int) {
 		for L := 1; L <= maxLen; L++ {
@@ -657,6 +678,9 @@ func TestVerifC13_bls_pairing(t *testing.T) {
 					x /= len(tt)
 				}
 				id := fmt.Sprintf("%s/%d/%d", op, L, idx)
+				if proj {
+					id += "/proj"
+				}
 				if !r.Want(id) {
 					return
 				}
@@ -667,6 +691,9 @@ func TestVerifC13_bls_pairing(t *testing.T) {
 				hasID, desc := false, ""
 				for i, tm := range ts {
 					p, q := *P1[tm.a], *Q2[tm.b] // copies: the callee must not be able to disturb shared operands
+					if proj {
+						p, q = *P1p[tm.a], *Q2p[tm.b]
+					}
 					Ps[i], Qs[i] = &p, &q
 					ns[i] = c13Scalar(small(tm.n), 32)
 					signs[i] = int(tm.n)
@@ -688,14 +715,24 @@ func TestVerifC13_bls_pairing(t *testing.T) {
 					return
 				}
 				class := fmt.Sprintf("len=%d", L)
+				if proj {
+					class = "projective-inputs|" + class
+				}
 				if hasID {
 					class += "|with-identity"
 					r.Count(op+"_with_identity", 1)
+					if proj && L > 1 {
+						r.Count(op+"_projective_with_identity", 1)
+					}
 				}
 				same(op, class, id, got, sum, map[string]string{"terms(a,b,n)": desc})
 				r.Eval(1)
 				r.Transition(1)
-				r.Distinct(op, desc)
+				if proj {
+					r.Distinct(op+"/proj", desc)
+				} else {
+					r.Distinct(op, desc)
+				}
 			})
 		}
 	}
@@ -721,6 +758,13 @@ func TestVerifC13_bls_pairing(t *testing.T) {
 		r.NotExhaustive("quick tier: ProdPairFrac lists of length 3 thinned to every 4th index; ProdPair lists of length 3 only in the thorough tier")
 	}
 	runLists("ProdPairFrac", fterms, 3, thin)
+	// every list again with all operands in projective representation (lists of length 1..2; thorough: ProdPairFrac also length 3)
+	proj = true
+	runLists("ProdPair", terms, 2, 1)
+	runLists("ProdPairFrac", fterms, r.Pick(2, 3), 1)
+	proj = false
+	r.RequireCounter("ProdPair_projective_with_identity", 100)
+	r.RequireCounter("ProdPairFrac_projective_with_identity", 100)
 	r.Sample(map[string]string{"op": "ProdPairFrac", "terms(a,b,sign)": "(1,1,1)(1,1,-1)"})
 
 	r.RequireCounter("pair_with_identity", 10)
